@@ -109,7 +109,7 @@ Definition for_layout (code : list ipos) (pc0 : nat) (p : pos) (v : name) (lo hi
   let la := length (gen_expr_casting lo q) in
   let lh := length (gen_expr_casting hi q) in
   let l0 := pc0 + la + 2 + lh + 3 in
-  let out := l0 + 9 + lb + 10 in
+  let out := l0 + 9 + lb + 9 in
   code_at code pc0 (gen_expr_casting lo q ++ gen_store v p ++ gen_expr_casting hi q ++
                     [(ICopyAToC, p); (ILoad (VInteger 1%Z), p); (ICopyAToD, p)]) /\
   (exists l, nth_error code l0 = Some (ILabel l, p)) /\
@@ -120,7 +120,7 @@ Definition for_layout (code : list ipos) (pc0 : nat) (p : pos) (v : name) (lo hi
   (exists l, nth_error code out = Some (ILabel l, p)).
 
 Definition for_len (v : name) (lo hi : expr) (lb : nat) : nat :=
-  length (gen_expr_casting lo (snd v)) + 2 + length (gen_expr_casting hi (snd v)) + 3 + 9 + lb + 10 + 1.
+  length (gen_expr_casting lo (snd v)) + 2 + length (gen_expr_casting hi (snd v)) + 3 + 9 + lb + 9 + 1.
 
 (** the loop of [exec (S f) (SFor p v lo hi None body)] once the bounds are known *)
 Definition for_loop1 (f : nat) (v : name) (p : pos) (hi_v : variant) (body : list stmt) : nat -> state -> outcome :=
@@ -181,7 +181,7 @@ Proof.
   intros code pc0 p v lo hi body lb Htlo Hthi (Hhead & [ll0 Hl0] & Htest & [lb1 Hlb] & Hpush & Htail & [lout Hout]) Hbody.
   set (q := snd v) in *.
   set (la := length (gen_expr_casting lo q)) in *. set (lh := length (gen_expr_casting hi q)) in *.
-  set (l0 := pc0 + la + 2 + lh + 3) in *. set (out := l0 + 9 + lb + 10) in *.
+  set (l0 := pc0 + la + 2 + lh + 3) in *. set (out := l0 + 9 + lb + 9) in *.
   intros f. destruct f as [|f]; [intros st r t vs ps; exact I|].
   intros st r t vs ps. cbn [Sem.exec].
   (* pieces of the head *)
@@ -392,8 +392,8 @@ Definition for_step_layout (code : list ipos) (pc0 : nat) (p : pos) (v : name) (
   let lh := length (gen_expr_casting hi q) in
   let ls := length (gen_expr_casting se q) in
   let l0 := pc0 + la + 2 + lh + 1 + ls + 6 in
-  let kz := l0 + 22 + lb + 11 in
-  let out := l0 + 22 + lb + 13 in
+  let kz := l0 + 22 + lb + 10 in
+  let out := l0 + 22 + lb + 12 in
   code_at code pc0 (gen_expr_casting lo q ++ gen_store v p ++ gen_expr_casting hi q ++ [(ICopyAToC, p)] ++ gen_expr_casting se q ++
                     [(ICopyAToD, p); (ILoad (VInteger 0%Z), p); (ICopyAToB, p); (ICopyDToA, p); (IBin NotEqual, p); (IJumpIfFalse (TAddr kz), p)]) /\
   (exists l, nth_error code l0 = Some (ILabel l, p)) /\
@@ -408,7 +408,7 @@ Definition for_step_layout (code : list ipos) (pc0 : nat) (p : pos) (v : name) (
   (exists l, nth_error code out = Some (ILabel l, p)).
 
 Definition for_step_len (v : name) (lo hi se : expr) (lb : nat) : nat :=
-  length (gen_expr_casting lo (snd v)) + 2 + length (gen_expr_casting hi (snd v)) + 1 + length (gen_expr_casting se (snd v)) + 6 + 22 + lb + 14.
+  length (gen_expr_casting lo (snd v)) + 2 + length (gen_expr_casting hi (snd v)) + 1 + length (gen_expr_casting se (snd v)) + 6 + 22 + lb + 13.
 
 Theorem for_step_correct : forall code pc0 p v lo hi se body lb,
   etype lo <> None -> etype hi <> None -> etype se <> None ->
@@ -420,7 +420,7 @@ Proof.
     (Hhead & [ll0 Hl0] & Hsign & [lpos Hpos] & Htest & [lb1 Hlb] & Hpush & Htail & [lkz Hkz] & Hthrow & [lout Hout]) Hbody.
   set (q := snd v) in *.
   set (la := length (gen_expr_casting lo q)) in *. set (lh := length (gen_expr_casting hi q)) in *. set (ls := length (gen_expr_casting se q)) in *.
-  set (l0 := pc0 + la + 2 + lh + 1 + ls + 6) in *. set (kz := l0 + 22 + lb + 11) in *. set (out := l0 + 22 + lb + 13) in *.
+  set (l0 := pc0 + la + 2 + lh + 1 + ls + 6) in *. set (kz := l0 + 22 + lb + 10) in *. set (out := l0 + 22 + lb + 12) in *.
   intros f. destruct f as [|f]; [intros st r t vs ps; exact I|].
   intros st r t vs ps. cbn [Sem.exec].
   pose proof (code_at_app_l _ _ _ _ Hhead) as Hlo. pose proof (code_at_app_r _ _ _ _ Hhead) as H1. fold la in H1.
